@@ -9,13 +9,8 @@ BadOf(i) == LET cs == Cases[i]
                 su == In[cs.s]
             IN  { r \in 1..Len(su.reqs) : ~Ok(su.cfgs[cs.c], su.reqs[r], cs.outs[r]) }
 Bad == UNION { { [i |-> i, r |-> r] : r \in BadOf(i) } : i \in 1..Len(Cases) }
-Count(k) == LET n[i \in 0..Len(Cases)] ==
-                  IF i = 0 THEN 0
-                  ELSE n[i - 1] + Cardinality({ r \in 1..Len(Cases[i].outs) : Cases[i].outs[r][1] = k })
-            IN  n[Len(Cases)]
 ASSUME TablesSane
 ASSUME \A i \in 1..Len(Cases) : Len(Cases[i].outs) = Len(In[Cases[i].s].reqs)
 ASSUME JsonSerialize(IOEnv.RF_VERDICT,
-         [n |-> Count(0) + Count(1) + Count(2) + Count(3), placed |-> Count(0), unsat |-> Count(1),
-          malformed |-> Count(2), crashed |-> Count(3), bad |-> SetToSeq(Bad)])
+         [n |-> FoldSeq(LAMBDA c, acc : acc + Len(c.outs), 0, Cases), bad |-> SetToSeq(Bad)])
 ====
